@@ -100,7 +100,7 @@ impl XCase {
         let op = j.get("op").ok_or("op missing")?;
         match target {
             "awareness" => Ok(XCase::Aw(AwCase::from_json(variant, op)?)),
-            "syncmsg" => Ok(XCase::Msg(MsgCase::from_json(op)?)),
+            "syncmsg" => Ok(XCase::Msg(MsgCase::from_json(variant, op)?)),
             "snapshot" => Ok(XCase::Snap(SnapCase::from_json(op)?)),
             "svsync" => Ok(XCase::Sv(SvCase::from_json(op)?)),
             other => Err(format!("unknown target {:?}", other)),
